@@ -1,28 +1,32 @@
-(* statement pins and axiom audit for C18 (compiled on every check) *)
+(* statement pins and axiom audit for C18 (compiled on every check; regenerate BY HAND with driver/mkpins.py) *)
 From Coq Require Import Permutation.
 From ChiaV.Base Require Import Bytes Sha256.
 From ChiaV.Gen Require Import Dl.
-From ChiaV.Dl Require Import Format Map Tree Blob Abs Inv History Spec PreFix Refuted.
-From ChiaV.Props Require Import C18.
+From ChiaV.Dl Require Import Format Map Tree Blob Abs Inv History Spec PreFix FormatProofs Refuted TreeProofs BlobLemmas BlobOps BlobOps6 BlobOps7 BlobHash BlobProof BlobReload BlobIntegrity BlobOps8.
 Open Scope N_scope.
-
-Check C18_tree_op_refines_map : forall H, (forall x, H x <> []) -> forall o ot m,
+From ChiaV.Props Require Import C18.
+Check C18_tree_op_refines_map :
+  forall H, (forall x, H x <> []) -> forall o ot m,
   tree_refines H ot m ->
   let '(ok1, ot1) := step1 H o ot in
   let '(ok0, m0) := step0 o m in
   ok1 = ok0 /\ tree_refines H ot1 m0 /\ (ok1 = false -> ot1 = ot).
 Print Assumptions C18_tree_op_refines_map.
-Check C18_tree_history_refines_map : forall H, (forall x, H x <> []) -> forall ops,
+Check C18_tree_history_refines_map :
+  forall H, (forall x, H x <> []) -> forall ops,
   tree_refines H (run1 H ops None) (run0 ops []).
 Print Assumptions C18_tree_history_refines_map.
-Check C18_root_is_recomputation : forall H t, twf H t ->
+Check C18_root_is_recomputation :
+  forall H t, twf H t ->
   t_hash (t_rehash H t) = merkle H t /\ twf H (t_rehash H t) /\ t_all_clean (t_rehash H t) = true.
 Print Assumptions C18_root_is_recomputation.
-Check C18_proofs_valid : forall H t k, twf H t -> t_all_clean t = true -> In k (tkeys t) ->
+Check C18_proofs_valid :
+  forall H t k, twf H t -> t_all_clean t = true -> In k (tkeys t) ->
   exists p, t_proof k t = Some p /\ proof_valid H p = true /\ proof_root_hash p = t_hash t /\
             exists v, m_get k (t_kv t) = Some (v, p_node_hash p).
 Print Assumptions C18_proofs_valid.
-Check C18_history_root_and_proofs : forall H, (forall x, H x <> []) -> forall ops,
+Check C18_history_root_and_proofs :
+  forall H, (forall x, H x <> []) -> forall ops,
   let m := run0 ops [] in
   match run1 H (ops ++ [THash]) None with
   | None => m = []
@@ -33,35 +37,68 @@ Check C18_history_root_and_proofs : forall H, (forall x, H x <> []) -> forall op
                   exists v, m_get k m = Some (v, p_node_hash p)
   end.
 Print Assumptions C18_history_root_and_proofs.
-Check C18_block_codec : forall b, wf_block b ->
+Check C18_block_codec :
+  forall b, wf_block b ->
   exists bs, encode_block b = Ok bs /\ length bs = N.to_nat BLOCK_SIZE /\ decode_block bs = Ok b.
 Print Assumptions C18_block_codec.
-Check C18_inv_abs : forall H s t, Inv_tree H s t -> abs s = Some (Some (erase t)).
+Check C18_inv_abs :
+  forall H s t, Inv_tree H s t -> abs s = Some (Some (erase t)).
 Print Assumptions C18_inv_abs.
-Check C18_blob_insert_refines_tree : forall H, (forall x, length (H x) = HASH_BYTES) ->
+Check C18_blob_insert_refines_tree :
+  forall H, (forall x, length (H x) = HASH_BYTES) ->
   forall s ot k v h loc,
   Abs H s ot -> in_range k v h -> room s ->
   step_ok H (OInsert k v h loc) s ot (op_to_top s (OInsert k v h loc)).
 Print Assumptions C18_blob_insert_refines_tree.
-Check C18_blob_delete_refines_tree : forall H s ot k,
+Check C18_blob_delete_refines_tree :
+  forall H s ot k,
   Abs H s ot -> step_ok H (ODelete k) s ot (TDelete k).
 Print Assumptions C18_blob_delete_refines_tree.
-Check C18_blob_upsert_refines_tree : forall H, (forall x, length (H x) = HASH_BYTES) ->
+Check C18_blob_upsert_refines_tree :
+  forall H, (forall x, length (H x) = HASH_BYTES) ->
   forall s ot k v h,
   Abs H s ot -> in_range k v h -> room s -> step_ok H (OUpsert k v h) s ot (TUpsert k v h).
 Print Assumptions C18_blob_upsert_refines_tree.
-Check C18_blob_batch_rejects_duplicates : forall H s ot items,
+Check C18_blob_batch_rejects_duplicates :
+  forall H s ot items,
   Abs H s ot -> m_batch items (ot_kv ot) = None ->
   exists e, step2 H (OBatch items) s = (Err e, s) /\ step1 H (TBatch items) ot = (false, ot).
 Print Assumptions C18_blob_batch_rejects_duplicates.
-Check C18_blob_content_is_map : forall H s ot m, Abs H s ot -> tree_refines H ot m -> content_is s m.
+Check C18_blob_content_is_map :
+  forall H s ot m, Abs H s ot -> tree_refines H ot m -> content_is s m.
 Print Assumptions C18_blob_content_is_map.
-Check C18_blob_history_refines_map_partial : forall H, (forall x, length (H x) = HASH_BYTES) -> forall ops,
-  Forall (fun o => is_idu o = true) ops -> Forall op_in_range ops -> rooms H ops empty_blob ->
+Check C18_blob_hash_refines_tree :
+  forall H, (forall x, length (H x) = HASH_BYTES) ->
+  forall s ot, Abs H s ot -> step_ok H OHash s ot THash.
+Print Assumptions C18_blob_hash_refines_tree.
+Check C18_blob_root_after_hashing :
+  forall H, (forall x, length (H x) = HASH_BYTES) ->
+  forall s t s', Inv_tree H s t -> calculate_lazy_hashes H s = (Ok tt, s') ->
+  get_hash_at_index s' 0 = Ok (Some (merkle H (erase t))) /\
+  abs s' = Some (Some (t_rehash H (erase t))) /\ t_all_clean (t_rehash H (erase t)) = true.
+Print Assumptions C18_blob_root_after_hashing.
+Check C18_blob_proof_is_tree_proof :
+  forall H s t k,
+  Inv_tree H s t -> t_all_clean (erase t) = true -> In k (it_keys t) ->
+  exists p, get_proof_of_inclusion s k = Ok p /\ t_proof k (erase t) = Some p.
+Print Assumptions C18_blob_proof_is_tree_proof.
+Check C18_blob_check_integrity_ok :
+  forall H, (forall x, length (H x) = HASH_BYTES) ->
+  forall s t, Inv_tree H s t -> check_integrity H s = Ok tt.
+Print Assumptions C18_blob_check_integrity_ok.
+Check C18_blob_reload_equivalent :
+  forall H s t, Inv_tree H s t ->
+  exists s', reload (bytes_of_blocks (blocks s)) = Ok s' /\ blob_equiv s s' /\ Inv_tree H s' t.
+Print Assumptions C18_blob_reload_equivalent.
+Check C18_blob_history_refines_map_partial :
+  forall H, (forall x, length (H x) = HASH_BYTES) -> forall ops,
+  Forall op_in_range ops -> rooms H ops empty_blob -> rejected_batches H ops empty_blob [] ->
   let '(s', m', fine) := run_joint H ops empty_blob [] in
-  fine = true /\ exists ot', Abs H s' ot' /\ abs s' = Some ot' /\ tree_refines H ot' m' /\ content_is s' m'.
+  fine = true /\ Inv H s' /\ good_state H s' m' /\
+  exists ot', Abs H s' ot' /\ abs s' = Some ot' /\ tree_refines H ot' m'.
 Print Assumptions C18_blob_history_refines_map_partial.
-Check C18_invariant_inhabited : exists s t, Inv_tree sha256 s t /\ abs s = Some (Some (erase t)).
+Check C18_invariant_inhabited :
+  exists s t, Inv_tree sha256 s t /\ abs s = Some (Some (erase t)).
 Print Assumptions C18_invariant_inhabited.
 Check C18_prefix_batch_duplicate_refuted :
   (let '(x, s) := batch_insert_pre sha256 w_batch_dup empty_blob in
